@@ -62,7 +62,7 @@ func runC16(w *World, r *Report, tier string) {
 	}
 
 	// ---- O2
-	hcalls := w.callsIn(res, "xmpp.Component.handshake")
+	hcalls := w.callsInH(res, "xmpp.Component.handshake")
 	if len(hcalls) != 1 {
 		r.Undecided("O2", "xmpp.(*Component).Resume→handshake", w.pos(res.Pos()), "expected one handshake() call")
 		return
@@ -169,8 +169,8 @@ func runC16(w *World, r *Report, tier string) {
 	r.Check(okIS && nSrc > 0, "O2", "stanza.InitStream#id", w.pos(is.Pos()), "the stream id returned is not (only) the value of the header's id attribute", "id = attr.Value under attr.Name.Local == \"id\"")
 
 	// ---- O3
-	writes := w.callsIn(res, "xmpp.Component.sendWithWriter", "xmpp.Transport.Write", "fmt.Fprintf", "io.Writer.Write", "io.WriteString")
-	nps := w.callsIn(res, "stanza.NextPacket")
+	writes := w.callsInH(res, "xmpp.Component.sendWithWriter", "xmpp.Transport.Write", "fmt.Fprintf", "io.Writer.Write", "io.WriteString")
+	nps := w.callsInH(res, "stanza.NextPacket")
 	if len(writes) != 1 || len(nps) != 1 {
 		r.Fail("O3", "xmpp.(*Component).Resume#handshake-write", w.pos(res.Pos()), fmt.Sprintf("%d write(s) and %d reply read(s) in Resume; exactly one of each expected", len(writes), len(nps)))
 		return
